@@ -430,6 +430,9 @@ class Check:
         # evidence describes a run against /repo itself; runs against a scratch copy (seeded / benign self-tests, COVFIE_SRC set)
         # must not overwrite it
         evdir = os.path.join(ROOT, "evidence") if os.path.realpath(REPO) == "/repo" else os.path.join(BUILD, "evidence-scratch")
+        if self.pid.startswith("X") and os.path.realpath(REPO) == "/repo":      # checks beyond the listed properties (DESIGN 10.9)
+            evdir = os.path.join(ROOT, "extras", "evidence")
+            os.makedirs(evdir, exist_ok=True)
         os.makedirs(evdir, exist_ok=True)
         if not cov["samples"]:
             cov["samples"] = ["(no sample recorded)"]
